@@ -619,8 +619,9 @@ func (c *compiler) buildLA(useTransitions, stats bool) {
 			for ; c.right[i] >= 0; i++ {
 				states = append(states, curr)
 				curr = c.gotoState(curr, Sym(c.right[i]))
-				if curr == -1 {
-					// This rule was pruned from the inner chain of transitions.
+				if curr == -1 || !slices.Contains(c.states[curr].core, i+1) {
+					// This rule was pruned from the inner chain of transitions (the transition
+					// itself can survive for the .greedy items that pruned it).
 					continue rules
 				}
 			}
